@@ -344,7 +344,7 @@ class AbstractDateTime(AnyAtomicType):
         elif 0 <= year <= 9999:
             return '{:04}'.format(year)
         else:
-            return str(year)
+            return str(year if year > 0 or self._xsd_version == '1.0' else year + 1)
 
     @property
     def month(self) -> int:
